@@ -39,7 +39,9 @@ CLAIMED = {
              "the simulator owns id() (address re-issue policy for temporaries) and the wall clock (tick per read, forward/backward "
              "jumps, freezes scheduled inside the calls). Every answer is compared with a backtracking enumeration of the view's "
              "structure-preserving self-maps; answers must not depend on allocator or clock unless flagged, flags need a cause, "
-             "flagged answers must still be sound. Seeded sampling; evidence, not proof.",
+             "flagged answers must still be sound. Long-lived hypergraph and analyser objects are re-used, edited in place and re-keyed; lazy "
+             "enumerations are suspended while other calls run on the same object; a second interpreter with another hash salt must "
+             "reproduce stored canonical forms. Seeded sampling; evidence, not proof. As built: DESIGN.md section 8.",
         ref="3.5",
         note="Trusted: the 150-line backtracking reference (dsim/props/graphref.py); the rule that a pure temporary's address may be "
              "re-issued immediately. Stubs: id, time. Real: canon.py, automorphism.py, backend/conversion, networkx VF2."),
